@@ -4,6 +4,7 @@
 //! usage: verif-harness <command> <casefile>
 mod bits;
 mod budget;
+mod codec;
 mod findings;
 mod jets;
 mod policy;
@@ -13,11 +14,30 @@ mod value;
 
 use std::io::{BufRead, Write};
 
+#[repr(C)]
+struct RLimit {
+    cur: u64,
+    max: u64,
+}
+extern "C" {
+    fn setrlimit(resource: i32, rlim: *const RLimit) -> i32;
+}
+const RLIMIT_AS: i32 = 9; // Linux
+
 fn main() {
     let args: Vec<String> = std::env::args().collect();
     if args.len() < 3 {
         eprintln!("usage: verif-harness <command> <casefile>");
         std::process::exit(2);
+    }
+    // optional address-space limit (MiB): a decoder allocating without bound dies and the
+    // driver marks the case CRASH
+    let mb: u64 = std::env::var("VERIF_AS_LIMIT_MB").ok().and_then(|s| s.parse().ok()).unwrap_or(0);
+    if mb > 0 {
+        let lim = RLimit { cur: mb << 20, max: mb << 20 };
+        unsafe {
+            setrlimit(RLIMIT_AS, &lim);
+        }
     }
     // silence panic messages: panics are data here
     if std::env::var_os("VERIF_PANIC_MSG").is_none() {
@@ -43,6 +63,8 @@ fn main() {
             "jets" => jets::run(&toks[1..]),
             "policy" => policy::run(&toks[1..]),
             "value" => value::run(&toks[1..]),
+            "c01" => codec::run_c01(&toks[1..]),
+            "c02" => codec::run_c02(&toks[1..]),
             other => {
                 eprintln!("unknown command {}", other);
                 std::process::exit(2);
